@@ -106,7 +106,8 @@ class Engine(object):
         self.policy = FaultPolicy.draw(
             t, ["req_loss", "rep_loss", "rep_delay", "rep_dup", "req_delay",
                 "req_dup", "retryable_rc", "fatal_rc", "host_stall",
-                "clock_jump_fwd", "clock_jump_back", "partition", "rep_batch"],
+                "clock_jump_fwd", "clock_jump_back", "partition", "rep_batch",
+                "spurious_wakeup"],
             self.timeout)
         self.pre_advance = [0, 0, 0, 0xfff0, 0xffff, 0x7fff][t.draw(6)]
         self.net = SimNetwork(w, self.policy)
